@@ -55,6 +55,35 @@ theorem C24_remove_sub_transform {α} (w : WCfg) (info : α → FInfo) (hasFW : 
     · exact List.mem_map.2 ⟨f, List.mem_filter.2 ⟨hf, by simp [hfw, hl]⟩, rfl⟩
   · simp at hin
 
+/-! ## the per-library blocks of the plan file -/
+
+theorem mem_allOf_of_lookupLib (k : Option String) (m : LibMap) (x : String) (h : x ∈ lookupLib k m) : x ∈ allOf m := by
+  unfold lookupLib at h
+  cases hf : m.find? (fun p => p.1 == k) with
+  | none => rw [hf] at h; simp at h
+  | some p =>
+    rw [hf] at h
+    simp only [Option.map_some, Option.getD_some] at h
+    simp only [allOf, List.mem_flatMap]
+    exact ⟨p, List.mem_of_find?_eq_some hf, h⟩
+
+/-- **per-library blocks = restriction of the lists to the library**: the blocks `write_plan` writes for library `k`
+are, in this order, the origins, the new paths and the replaced originals of the planned files of library `k` -/
+theorem C24_planfile_lib_spec {α} (w : WCfg) (info : α → FInfo) (hasFW : α → Bool) (visitedC : List α) (k : String) :
+    (planFileLib (planRun w info hasFW visitedC {}) k).map (·.2) =
+      [(visitedC.filter (fun f => hasFW f && decide ((info f).lib = some k))).flatMap (fun f => originsOf (info f)),
+       (visitedC.filter (fun f => hasFW f && decide ((info f).lib = some k))).map (fun f => getFilePath w (info f)),
+       (visitedC.filter (fun f => hasFW f && decide ((info f).lib = some k))).flatMap (fun f => replacedOf (info f))] := by
+  simp [planFileLib, C24_transform_eq_origins, C24_append_spec, C24_remove_eq_replaced]
+
+/-- every entry of a per-library block occurs in the global block of the same kind; in particular a file that is
+not in `LOKI_SOURCES_TO_REMOVE` (a replicated original) is in no `LOKI_SOURCES_TO_REMOVE_<lib>` -/
+theorem C24_planfile_lib_sub_global (p : Plan) (k : String) (x : String) :
+    (x ∈ lookupLib (some k) p.transform → x ∈ allOf p.transform) ∧
+    (x ∈ lookupLib (some k) p.append → x ∈ allOf p.append) ∧
+    (x ∈ lookupLib (some k) p.remove → x ∈ allOf p.remove) :=
+  ⟨mem_allOf_of_lookupLib _ _ _, mem_allOf_of_lookupLib _ _ _, mem_allOf_of_lookupLib _ _ _⟩
+
 /-! ## plan versus conversion, for any traversals -/
 
 theorem dedup_of_nodup : ∀ (l : List String), l.Nodup → dedup l = l
